@@ -227,6 +227,10 @@ def rule_keys(ctx: Ctx) -> None:
             acc = [t for t in getter(p) if "self.__data" in t]
             ctx.require(bool(acc), f"TransformDict.{name}: no access to the table found on a path")
             if is_key is None:
+                m0 = re.search(r"self\.__data(?:\[(.*)\]|\.get\((.*?)(?:,None)?\))$", acc[0])
+                used0 = (m0.group(1) or m0.group(2)) if m0 else acc[0]
+                # positively a violation only when the table is addressed with the raw argument; a call that was not read through is an idiom not recognised
+                ctx.require(used0 == "key", f"TransformDict.{name}: the table is addressed with `{used0[:80]}` without a visible isinstance(key, TransformKey) dispatch")
                 ctx.violate("C18-key-spelling", f"TransformDict.{name}", "no-normalisation",
                             f"TransformDict.{name} uses its key argument as given (`{acc[0][:80]}`): a (str, str) / (FrameID, str) tuple is not turned into a TransformKey, so equivalent spellings address different entries",
                             fi=fi, expected="key if isinstance(key, TransformKey) else load_key(*key)", found=acc[0][:120])
